@@ -17,6 +17,7 @@ import Rsa.Lemmas.C20Num
 import Rsa.Lemmas.C20Meadows
 import Rsa.Lemmas.C20Hrf
 import Rsa.Lemmas.C20Syntax
+import Rsa.Lemmas.C20Session
 
 set_option linter.unusedSectionVars false
 set_option linter.unusedVariables false
@@ -1360,5 +1361,89 @@ example : selectConfounds ["csf".toList] (some ["rot_x".toList, "csf".toList])
   decide
 
 end meadows3
+
+/-! ## 8. Look-up sessions on one layout (round 4) -/
+
+section session
+variable {γ : Type}
+
+/-- **No look-up depends on an earlier one.**  `runSession` is the code as written — one
+    `BidsLayout` whose `_nibabel` is set by the first search, file objects that keep their
+    sidecar in `_meta` and the sidecar its parsed json in `_data` — run over *any* list of calls
+    (new file objects, `find_mri_derivative_files`, `find_meta_for`, `get_meta`, `find_events_for`,
+    table / MRI siblings, key files) in any order, from any state whose caches are coherent (in
+    particular the empty one).  Every answer (the file found and what reading it gives) equals
+    the stateless specification `pureSession`: a function of the file asked about and of the
+    disk only.  The attributes the classes carry are regenerated from the source: the layout
+    has `_path` and `_nibabel` and nothing else, a file `relpath`, `layout`, `_meta` and its
+    entities, a sidecar `_data`, an fMRIPrep run its `boldFile`; the only caches are
+    `self._meta` / `self._data` on the object asked (a cache on the layout, the class or the
+    module is a different program: these leaves change or become underivable). -/
+theorem session_lookups_stateless (fs : Str → Option γ) (files : List Str) (s : Session γ)
+    (hc : Coherent Src.lk fs s) (steps : List Step) :
+    runSession Src.lk fs files s steps = pureSession Src.lk fs files (s.objs.map (·.ent)) steps ∧
+    Src.layoutFields = ["_nibabel".toList, "_path".toList] ∧
+    Src.fileFields = ["relpath".toList, "layout".toList, "_meta".toList] ∧
+    Src.jsonFields = ["_data".toList] ∧ Src.runFields = ["boldFile".toList] ∧
+    Src.metaCacheOwner = "self._meta".toList ∧ Src.dataCacheOwner = "self._data".toList :=
+  ⟨runSession_spec Src.lk fs files steps s hc, by decide, by decide, by decide, by decide,
+   by decide, by decide⟩
+
+/-- **`get_meta()` always delivers the file's own sidecar.**  Whatever calls came before on the
+    same layout and the same objects (`pre`), `get_meta()` of a file with valid entities `e`
+    returns the content of exactly the file whose entities are `e` with `ext = json` — same
+    derivative (raw vs `derivatives/<A>` vs `derivatives/<B>`), subject, session, … — and the
+    earlier answers are unchanged by asking. -/
+theorem session_meta_own_sidecar (fs : Str → Option γ) (files : List Str) (s : Session γ)
+    (hc : Coherent Src.lk fs s) (pre : List Step) (h : Nat) (e : BidsEnt) (hv : ValidEnt e)
+    (hh : (pre.foldl (tblStep Src.lk files) (s.objs.map (·.ent)))[h]? = some e) :
+    runSession Src.lk fs files s (pre ++ [.getMeta h]) =
+      runSession Src.lk fs files s pre ++ [.file (Src.findMetaFor e) (fs (Src.findMetaFor e))] ∧
+    runSession Src.lk fs files s (pre ++ [.findMeta h]) =
+      runSession Src.lk fs files s pre ++ [.file (Src.findMetaFor e) (fs (Src.findMetaFor e))] ∧
+    Src.bidsParse (Src.findMetaFor e) = .ok { e with ext := sJson } := by
+  refine ⟨?_, ?_, (lookup_changes_only e hv ['a'] ['b'] ⟨by decide, by decide, by decide, by decide⟩
+    ⟨by decide, by decide, by decide, by decide⟩).1⟩
+  · rw [runSession_spec _ _ _ _ s hc, runSession_spec _ _ _ _ s hc, pureSession_snoc]
+    simp only [pureAns, pureFile, hh]; rfl
+  · rw [runSession_spec _ _ _ _ s hc, runSession_spec _ _ _ _ s hc, pureSession_snoc]
+    simp only [pureAns, pureFile, hh]; rfl
+
+/-- non-vacuity: a state with a populated cache is coherent -/
+example : Coherent Src.lk (fun _ => some (7 : Nat))
+    ({ objs := [{ ent := exFull, metaCache := some (Src.findMetaFor exFull, some 7) },
+                { ent := exBare, metaCache := some (Src.findMetaFor exBare, none) }] } : Session Nat) := by
+  intro o ho m hm
+  simp only [List.mem_cons, List.not_mem_nil, or_false] at ho
+  rcases ho with rfl | rfl
+  · simp only [Option.some.injEq] at hm; subst hm
+    exact ⟨rfl, fun d hd => by simp only [Option.some.injEq] at hd; subst hd; rfl⟩
+  · simp only [Option.some.injEq] at hm; subst hm
+    exact ⟨rfl, fun d hd => by simp at hd⟩
+
+/-- the literal look-ups (no search) -/
+def litLookups : Lookups where
+  parse := bidsParse
+  metaFor := findMetaFor
+  eventsFor := findEventsFor
+  tableSibling := findTableSiblingOf
+  mriSibling := findMriSiblingOf
+  tableKey := findTableKeyFor
+  derivativeFiles := fun _ _ _ _ => Except.ok []
+
+/-- a concrete session (literal look-ups): raw file and its namesake in a derivative, `get_meta`
+    of the derivative first, then of the raw file, then again of the derivative -/
+example :
+    let L : Lookups := litLookups
+    let raw := "sub-01/func/sub-01_bold.nii".toList
+    let der := "derivatives/A/sub-01/func/sub-01_bold.nii".toList
+    let fs : Str → Option Nat := fun p => if p = "sub-01/func/sub-01_bold.json".toList then some 1
+      else if p = "derivatives/A/sub-01/func/sub-01_bold.json".toList then some 2 else none
+    (runSession L fs [] {} [.newFile raw, .newFile der, .getMeta 1, .getMeta 0, .getMeta 1]).drop 2 =
+      [.file "derivatives/A/sub-01/func/sub-01_bold.json".toList (some 2),
+       .file "sub-01/func/sub-01_bold.json".toList (some 1),
+       .file "derivatives/A/sub-01/func/sub-01_bold.json".toList (some 2)] := by decide
+
+end session
 
 end Rsa.Props.C20
